@@ -67,7 +67,7 @@ def execute(run, files, repeats=16):
     run.distinct += st["stats"].get("nontrivial_cases", 0)
     run.rule += ("cases = every state of the MC_Render universe (exported by TLC, executed on the real library); "
                 "non-trivial = cases with >= 2 items / >= 2 live pairs / a comment in a container, counted distinct")
-    run.samples += st.get("samples", [])
+    run.samples += (st.get("samples") or [])
     run.exhaustive = True
     run.cov["other_properties_flagged_in_same_traces"] = others
     run.cov["drift_keys"] = drift_keys
